@@ -102,12 +102,13 @@ func vh_C08_authonly_all() {
 	s := vSessionMain("sess")
 	verifAssume(strings.Count(s.Email, "@") <= 3)
 	s.Groups = []string{ndString("group")}
-	q := url.Values{"allowed_groups": {"admins"}, "allowed_emails": {"a@corp.example,b@corp.example"}, "allowed_email_domains": {"corp.example"}}
+	// (short constants: the deciding e-mails must fit the stage-B string bound)
+	q := url.Values{"allowed_groups": {"admins"}, "allowed_emails": {"a@c.io,b@c.io,z@d.io"}, "allowed_email_domains": {"c.io"}}
 	u := &url.URL{Path: "/oauth2/auth"}
 	verifSetQuery(u, q)
 	req := &http.Request{Method: "GET", URL: u, Header: http.Header{}}
 	got := authOnlyAuthorize(req, s)
-	want := vAnd(s.Groups[0] == "admins", vOr(s.Email == "a@corp.example", s.Email == "b@corp.example"))
+	want := vAnd(s.Groups[0] == "admins", vOr(s.Email == "a@c.io", s.Email == "b@c.io"))
 	verifAssert("C08.authonly.all-three", got == want)
 	verifAssert("C08.authonly.nil-session-allowed", authOnlyAuthorize(req, nil))
 	verifReach("end")
